@@ -91,7 +91,7 @@ func GenData(rng *rand.Rand, kind string, n, slice int) []byte {
 // GenName makes a unique relative file name; ascii only when ascii is
 // set; with sub-directories when subdirs is set.
 func GenName(rng *rand.Rand, i int, ascii, subdirs bool) string {
-	base := []string{"a", "data", "file one", "x.bin", "R-1", "p.q.r", "UPPER.TXT", "z_9", "vol.par2.txt", "#h", "a=b", "pct%20", "tab\tname"}[rng.Intn(13)]
+	base := []string{"a", "data", "file one", "x.bin", "R-1", "p.q.r", "UPPER.TXT", "z_9", "vol.par2.txt", "#h", "a=b", "pct%20", "tab\tname", "read..me", "take 2...final", "x.."}[rng.Intn(16)]
 	if !ascii && rng.Intn(3) == 0 {
 		base = []string{"ünï", "日本語", "emoji😀x", "Ωmega", "𝔘𝔫𝔦"}[rng.Intn(5)]
 	}
